@@ -523,12 +523,25 @@ def run(ctx):
 
 
 def replay(ctx, case):
-    """Re-run one stored case on the implementation; returns failure detail or None."""
+    """Re-run one stored case on the implementation; returns failure detail or None.  Every case is a pure function of
+    (seed, stream, index), so the whole deterministic run is repeated quietly (a few seconds) and the failures on the same
+    image / stream entry are returned."""
     sub = type(ctx)(ctx.prop, ctx.tier, ctx.seed, 1, ctx.driver)
-    if 'image' in case:
-        want = case['image']['idx']
-        for d, ds, fr in _images(sub):
-            if d['idx'] == want:
-                _check_image(sub, d, ds, fr, [], [])
-                break
-    return sub.failures[:3] or None
+    sub.model_available = False          # implementation side only
+    import contextlib
+    import io as _io
+    with contextlib.redirect_stdout(_io.StringIO()), contextlib.redirect_stderr(_io.StringIO()):
+        run(sub)
+
+    def key(c):
+        if not isinstance(c, dict):
+            return None
+        for k in ('image', 'enc'):
+            if k in c and isinstance(c[k], dict):
+                return (k, c[k].get('idx'), c[k].get('colour'), c.get('path', '').split('/')[0])
+        if 'fixture' in c:
+            return ('fixture', c['fixture'], c.get('lazy'))
+        return None
+    want = key(case)
+    hits = [f for f in sub.failures if key(f['case']) == want] if want else sub.failures
+    return hits[:3] or None
